@@ -36,6 +36,7 @@ func RearrangeFuncs(src []byte, filename ...string) ([]byte, error) {
 	var s scanner.Scanner
 	s.Init(f, src, nil, scanner.ScanComments)
 	stmts := splitStmts(&s)
+	attachTrailingComments(f, stmts)
 	first := firstNonDecl(stmts)
 	if first < 0 { // no non-decl stmt
 		return src, nil
@@ -57,6 +58,25 @@ func RearrangeFuncs(src []byte, filename ...string) ([]byte, error) {
 		}
 	}
 	return ret, nil
+}
+
+// attachTrailingComments gives the comments that follow a statement on its
+// last line back to that statement: the scanner reports the automatic
+// semicolon before them, so splitStmts collected them for the next statement.
+func attachTrailingComments(f *token.File, stmts []aStmt) {
+	for i := 1; i < len(stmts); i++ {
+		prev, cur := &stmts[i-1], &stmts[i]
+		end := f.Line(prev.words[len(prev.words)-1].pos) // line of the closing semicolon
+		n := 0
+		for n < len(cur.words) && cur.words[n].tok == token.COMMENT && f.Line(cur.words[n].pos) == end {
+			n++
+		}
+		if n > 0 {
+			prev.words = append(prev.words, cur.words[:n]...)
+			cur.words = cur.words[n:]
+			cur.tok, cur.at = tokOf(cur.words)
+		}
+	}
 }
 
 func codeOf(src []byte, base, i int, rest []aStmt) []byte {
